@@ -309,6 +309,21 @@ def search(ctx, boost=1, focus=()):
         cases.append({"frame": rng.integers(1, 60000, (fy, fx)), "c": c, "peaks": peaks, "dtype": dts[k % 3],
                       "sparse": k % 4 == 0, "peaks_dtype": pdt.name})
         ctx.count("peaks_in_" + pdt.name)
+    # large frames (an axis of 257 .. 600 px, detector sized) with windows that end exactly on the far edge, start exactly on the
+    # near edge, or miss either by one pixel
+    for k in range((24 if ctx.tier == "thorough" else 8) * boost):
+        big, small = int(rng.integers(257, 601)), int(rng.integers(3, 60))
+        fy, fx = (big, small) if k % 2 else (small, big)
+        if k % 4 == 3:
+            fy = fx = int(rng.integers(257, 400))
+        c = int(rng.integers(1, 9))
+        peaks = []
+        for ax_size, ax in ((fy, 0), (fx, 1)):
+            for v in (ax_size - c, ax_size - c - 1, ax_size - c + 1, c, c - 1, ax_size - 1):
+                other = int(rng.integers(0, fx if ax == 0 else fy))
+                peaks.append((v, other) if ax == 0 else (other, v))
+        cases.append({"frame": rng.integers(1, 60000, (fy, fx)), "c": c, "peaks": peaks, "dtype": dts[k % 3], "sparse": k % 3 == 0})
+        ctx.count("large_frame_edge_ties")
     for params in cases:
         msgs = run_case("crop", params)
         fr = params["frame"]
